@@ -6,7 +6,7 @@ From Sim Require Import Map Variant Kernel.
 Import ListNotations.
 Local Open Scope Z_scope.
 
-Inductive ktask := TUser (hid : Z) (e : option ec).
+Inductive ktask := KTUser (hid : Z) (e : option ec).
 Inductive klog := LH (hid : Z) (e : option ec).
 
 Definition kop := kcall ktask klog.
@@ -23,10 +23,10 @@ Inductive sop :=
 
 Definition sop_call (o : sop) : kop :=
   match o with
-  | SPost h => KPost (TUser h None)
+  | SPost h => KPost (KTUser h None)
   | SExpiresAt i e => KExpiresAt i e
   | SExpiresAfter i d => KExpiresAfter i d
-  | SAsyncWait i h => KAsyncWait i (fun e => TUser h (Some e))
+  | SAsyncWait i h => KAsyncWait i (fun e => KTUser h (Some e))
   | SCancel i => KCancel i
   | SDestroy i => KDestroy i
   | SStop => KStop
@@ -38,7 +38,7 @@ Record kscript := { ks_main : list scmd; ks_handlers : zmap (list sop) }.
 
 Definition kexec (hs : zmap (list sop)) (t : ktask) (now : Z) (w : unit) : unit * list kop :=
   match t with
-  | TUser h e => (tt, KLog (LH h e) :: map sop_call (mget [] hs h))
+  | KTUser h e => (tt, KLog (LH h e) :: map sop_call (mget [] hs h))
   end.
 
 Definition scmd_dcmd (c : scmd) : dcmd ktask klog :=
